@@ -36,6 +36,19 @@ pub fn iter_send() -> (bool, bool) {
     *P.get_or_init(crate::probe::iter_send_probe)
 }
 
+/// Identity of one library call for the determinism self-check (who made it, as which
+/// operation, with which request) and the work the library did for it (path signature and
+/// step count).
+fn work_entry(kind: &str, what: &str, poll: Option<usize>, op: usize, me: usize, sig: u64, steps: u64) -> (u64, u64) {
+    let mut h = crate::rng::Fnv::default();
+    h.bytes(kind.as_bytes());
+    h.bytes(what.as_bytes());
+    h.u64(poll.map_or(u64::MAX, |p| p as u64));
+    h.u64(op as u64);
+    h.u64(me as u64);
+    (h.0, sig ^ steps.wrapping_mul(0x9E37_79B9_7F4A_7C15))
+}
+
 /// A call to be made from a thread-local destructor at thread exit (F10b).
 struct ExitCall {
     sim: Arc<SimThread>,
@@ -52,10 +65,11 @@ impl Drop for ExitList {
     fn drop(&mut self) {
         let calls = std::mem::take(&mut *self.0.borrow_mut());
         for c in calls {
-            let (r, _steps) = exec::guarded(0, || match c.req.method {
+            let (r, steps) = exec::guarded(0, || match c.req.method {
                 Method::IsMatch => exec::is_match(&c.obj.re.0, &c.req.input),
                 _ => exec::replace_all(&c.obj.re.0, &c.req.input, &c.req.repl),
             });
+            let we = work_entry("atexit", &c.req.show(), None, c.op, c.sim.idx, hook::last_sig(), steps);
             let got = match r {
                 Ok(s) => s,
                 Err(a) => a.render(),
@@ -77,6 +91,7 @@ impl Drop for ExitList {
             });
             let mut w = wlock(&c.world);
             w.rec.compared += 1;
+            w.workload.push(we);
             // std documents that `LocalKey::with` panics when the key is used during or after
             // its destruction; a library that keeps per-thread scratch behind `with` inherits
             // that limitation of thread-local storage. It is an effect of the calling thread's
@@ -134,6 +149,9 @@ pub struct World {
     pub rec: RunRecord,
     probes: [u64; NSITES],
     callsigs: Vec<(u64, u64)>,
+    /// (call identity incl. thread and operation index, path signature + step count) of
+    /// every guarded call, compared or not.
+    workload: Vec<(u64, u64)>,
 }
 
 /// Process-wide (per worker) memory of the path signature first seen for each request.
@@ -249,6 +267,12 @@ impl Ctx {
             None => format!("#{}", op),
         };
         let mut w = wlock(&self.world);
+        {
+            // what the library did during this call, whatever its outcome: path signature
+            // and step count. Used by the determinism self-check to tell a library that does
+            // a varying amount of work from a harness that lost determinism.
+            w.workload.push(work_entry("call", &req.show(), poll, op, me, hook::last_sig(), got_steps));
+        }
         if let Err(Abnormal::Crashed) = got {
             w.rec.crashes_fired += 1;
             w.rec.crash_excluded += 1;
@@ -318,7 +342,8 @@ impl Ctx {
         } else {
             let near = STEP_BUDGET / 4;
             let boundary = (got_s == "Diverged" && exp_steps >= near)
-                || (exp_s == "Diverged" && got_steps >= near);
+                || (exp_s == "Diverged" && got_steps >= near)
+                || (refres.budget_sensitive && (got_s == "Diverged" || exp_s == "Diverged"));
             if boundary {
                 w.rec.inconclusive.push(format!(
                     "budget-boundary: {} got={} ({} steps) ref={} ({} steps)",
@@ -518,8 +543,9 @@ impl Ctx {
         let mut first_sig: Option<u64> = None;
         let mut sig_changes = 0u64;
         let mut done = 0usize;
+        let mut soak_work = crate::rng::Fnv::default();
         for k in 0..n {
-            let (r, _steps) = exec::guarded(0, || match method {
+            let (r, steps) = exec::guarded(0, || match method {
                 Method::IsMatch => exec::is_match(&obj.re.0, input),
                 Method::ReplaceAll => exec::replace_all(&obj.re.0, input, repl),
                 _ => unreachable!("soak is for simple calls"),
@@ -530,6 +556,8 @@ impl Ctx {
                 Err(a) => a.render(),
             };
             let sig = hook::last_sig();
+            soak_work.u64(sig);
+            soak_work.u64(steps);
             match first_sig {
                 None => first_sig = Some(sig),
                 Some(f) if f != sig => sig_changes += 1,
@@ -545,6 +573,7 @@ impl Ctx {
         let mut w = wlock(&self.world);
         w.rec.compared += done as u64;
         w.rec.soak_calls += done as u64;
+        w.workload.push(work_entry("soak", &req.show(), None, op, me, soak_work.0, 0));
         if sig_changes > 0 {
             w.rec.path_impure += sig_changes;
             if w.rec.path_impure_examples.len() < 3 {
@@ -1003,12 +1032,15 @@ impl Ctx {
                 ));
                 if let Some(o) = obj {
                     self.begin_call(Some(&o));
-                    let (_r, _steps) = exec::guarded(0, || {
+                    let (_r, steps) = exec::guarded(0, || {
                         let s = format!("{:?}", o.re.0);
                         std::hint::black_box(s.len())
                     });
                     self.end_call();
-                    wlock(&self.world).rec.debug_fmts += 1;
+                    let we = work_entry("debugfmt", "", None, i, self.me(), hook::last_sig(), steps);
+                    let mut w = wlock(&self.world);
+                    w.rec.debug_fmts += 1;
+                    w.workload.push(we);
                 }
             }
         }
@@ -1157,6 +1189,7 @@ pub fn run(
         rec: std::mem::take(&mut rec),
         probes: [0; NSITES],
         callsigs: Vec::new(),
+        workload: Vec::new(),
         mailbox: (0..spec.threads()).map(|_| Vec::new()).collect(),
     }));
     let use_pool = match pool {
@@ -1273,6 +1306,7 @@ pub fn run(
     rec.env_keys = env_keys;
     if want_trace {
         rec.callsigs = Some(std::mem::take(&mut w.callsigs));
+        rec.workload = Some(std::mem::take(&mut w.workload));
     }
     rec.probes = w
         .probes
@@ -1304,6 +1338,7 @@ pub fn run(
         rec.stalled = g.stalls;
         rec.thread_exits_joined = g.thread_exits_joined;
         rec.late_starts = g.late_starts;
+        rec.library_yields = g.yields;
         rec.ext_blocked = g.ext_blocked;
         rec.nondet_window = g.nondet_window;
         rec.deadlock = g.deadlock;
